@@ -365,3 +365,51 @@ Example lz_nonlocal_depends :
   leager lz_tree lz_file [[]] lz_call 10 lz_le (EUnscoped [109] (0, 0)) (lz_state []) (polls0 None) <>
   leager lz_tree lz_file [[]] lz_call 10 lz_le (EUnscoped [109] (0, 0)) (lz_state [([121], SVForcing)]) (polls0 None).
 Proof. split; [reflexivity|]. vm_compute. discriminate. Qed.
+
+(* ---- two states: independence of everything a local value cannot see ----
+   Vocabulary (Spec/AgreeLv.v)
+     states_agree env s1 s2     same graph, same parameter buffer, stores of the same length; every variable whose static
+                                bit is true is bound in both states to the SAME lazy value, whose reachable part of the two
+                                stores is the same (`agree`: both forced to the same value, or both unforced with the
+                                same scoped-free body over earlier, again agreeing locations; same debug info).
+                                NOTHING is assumed about the scoped stores, the variables with bit false (every `var`,
+                                every `let` of a non-local expression), the rest of the thunk stores, the deferred statements
+     outcomes_agree r1 r2       same value / error / panic / out of fuel, same polls, same final graph and parameters *)
+From TSG Require Import Spec.AgreeLv Proofs.LocalRel Proofs.LocalRelEval.
+
+Theorem local_independent_of_nonlocal_state : forall t fl glob call G,
+  (forall x, G x = true -> exists v, globals_get glob x = Some v) ->
+  forall fuel le e env s1 s2 p,
+  eager_ok G env e = true -> states_agree env s1 s2 ->
+  outcomes_agree (leager t fl glob call fuel le e s1 p) (leager t fl glob call fuel le e s2 p) /\
+  (forall v1 s1' p1 v2 s2' p2,
+     leager t fl glob call fuel le e s1 p = Ok (v1, s1', p1) -> leager t fl glob call fuel le e s2 p = Ok (v2, s2', p2) ->
+     states_agree env s1' s2').
+Proof. intros t fl glob call G Hglob fuel le e env s1 s2 p. apply leager_states_agree. exact Hglob. Qed.
+
+(* a state that satisfies the invariant agrees with itself (so with all its variants) *)
+Theorem invariant_gives_agreement : forall env s, locals_ok (l_store s) env (l_locals s) -> states_agree env s s.
+Proof. exact locals_ok_states_agree. Qed.
+
+(* Example: the state of lz_invariant and a variant in which the `var` m is bound to something else, the thunk behind
+   it holds another body, and the scoped cell is different: they agree, and the theorem gives the same result *)
+Definition lz_state' : lstate :=
+  {| l_graph := []; l_locals := [[([120], (LVar 0, false)); ([109], (LValue (VInt 7), true))]];
+     l_store := [{| th_state := TUnforced (LList [LValue (VInt 1)]); th_dbg := lz_ctx |};
+                 {| th_state := TForcing; th_dbg := lz_ctx |}];
+     l_scoped := [([121], SVForced [])]; l_edges := []; l_attrs := []; l_prints := []; l_params := []; l_prev := [] |}.
+Example lz_states_agree : states_agree lz_env (lz_state [([121], SVForcing)]) lz_state'.
+Proof.
+  split; [reflexivity|]. split; [reflexivity|]. split; [reflexivity|]. intros x Hx. cbn [lz_env lenv_get alist_get] in Hx.
+  destruct (str_eqb x [120]) eqn:E; [|destruct (str_eqb x [109]); discriminate].
+  exists (LVar 0). cbn [lz_state lz_state' l_locals varmap_get alist_get]. rewrite E. split; [reflexivity|]. split; [reflexivity|].
+  apply agree_lv_var. eapply AG_unforced; [reflexivity|reflexivity|reflexivity|reflexivity|reflexivity|reflexivity|intros l []|intros l []].
+Qed.
+Example lz_same_result :
+  outcomes_agree
+    (leager lz_tree lz_file [[]] lz_call 10 lz_le (EList [EUnscoped [120] (0, 0); EUnscoped [120] (0, 0)]) (lz_state [([121], SVForcing)]) (polls0 None))
+    (leager lz_tree lz_file [[]] lz_call 10 lz_le (EList [EUnscoped [120] (0, 0); EUnscoped [120] (0, 0)]) lz_state' (polls0 None)).
+Proof.
+  exact (proj1 (local_independent_of_nonlocal_state lz_tree lz_file [[]] lz_call (fun _ => false) (fun x H => ltac:(discriminate H))
+                  10 lz_le (EList [EUnscoped [120] (0, 0); EUnscoped [120] (0, 0)]) lz_env _ _ (polls0 None) eq_refl lz_states_agree)).
+Qed.
